@@ -393,6 +393,46 @@ def run(ctx):
                     inline_age = True
         ctx.check(not bad and len(rows_seen) == 4, "R14.6", "%s|doorkeeper-sketch-reset-table" % f.name,
                   "sketch incremented iff the doorkeeper already had the key; access counter += 1 on every path; counter >= threshold <=> reset (4 rows)", f.where(), "; ".join(sorted(set(bad))[:3]))
+    # ---- R14.8 the first-access filter itself: set on first sight, never forgets on its own --------------------------------
+    # (R14.6 says *when* the doorkeeper is asked and cleared; this says what the doorkeeper's own operations do, on every
+    # path with its helpers inlined: a key not yet in the filter is set exactly once and reported as added; a key already
+    # there changes nothing; and the only code that empties the filter is a function that does nothing else - a second,
+    # capacity- or time-based way of starting over wipes first accesses in the middle of an ageing window.)
+    bloom_types = [n_ for n_, a_ in F.adts.items() if a_["kind"] == "Struct" and any(fl["ty"].startswith("bloomfilter::Bloom<") for fl in a_["variants"][0]["fields"])]
+    is_bloom = lambda e, m: e.generic == "bloomfilter::Bloom::<T>::%s" % m
+    n_dk = 0
+    for n_, g in sorted(F.fns.items()):
+        if g.kind == "Closure" or (g.rec.get("self_ty") or "") not in bloom_types:
+            continue
+        ps = ipaths(F, g, stop=lambda x: False, depth=3)
+        sets = [p for p in ps if any(is_bloom(e, "set") for e in p.events)]
+        clears = [p for p in ps if any(is_bloom(e, "clear") for e in p.events)]
+        if clears:
+            n_dk += 1
+            pure = all(len([e for e in p.events if not e.log]) == 1 and not p.stores for p in clears) and len(clears) == len(ps)
+            ctx.check(pure, "R14.8", "%s|filter-emptied-only-by-a-pure-clear" % n_,
+                      "the filter is emptied only by a function that does nothing else (called from ageing / cache clear, R14.6): no other operation of the doorkeeper starts over on its own", g.where())
+        elif sets:
+            n_dk += 1
+            bad = []
+            from sym import bool_outcomes
+            for p in ps:
+                chk = [a for a in p.atoms if a[0] == "bool" and a[1][0] == "call" and a[1][1] == "bloomfilter::Bloom::<T>::check"]
+                ns = len([e for e in p.events if is_bloom(e, "set")])
+                outs = bool_outcomes(p) if g.rec.get("ret") == "bool" else []
+                r = ("const", 1 if outs[0][1] else 0, "bool") if len(outs) == 1 else p.ret
+                if not chk:
+                    bad.append("a path does not test whether the key is already in the filter")
+                elif chk[0][2] and (ns or r != ("const", 0, "bool")):
+                    bad.append("a key already in the filter: set %d times, returns %s" % (ns, fmt(r)))
+                elif not chk[0][2] and (ns != 1 or r != ("const", 1, "bool")):
+                    bad.append("a key not in the filter: set %d times, returns %s" % (ns, fmt(r)))
+                for e in p.events:
+                    if is_bloom(e, "set") and not same_value(e.args[1], ("param", 2)):
+                        bad.append("another key than the one given is set")
+            ctx.check(not bad, "R14.8", "%s|set-iff-missing" % n_,
+                      "a key not yet in the filter is set exactly once and reported as added; a key already there changes nothing and is reported as not added", g.where(), "; ".join(sorted(set(bad))[:3]))
+    ctx.floor("R14.8", "doorkeeper operations (set / clear)", n_dk, 2)
     # threshold originates from the configured counters
     thr = None
     for n2, g in F.fns.items():
